@@ -202,10 +202,13 @@ def run(tier):
         with concurrent.futures.ThreadPoolExecutor(max_workers=len(shards)) as ex:
             results = list(ex.map(lambda a: _drive(binp, a[0], a[1], sd, 600 if tier == 'quick' else 3000), list(enumerate(shards))))
         phases['driver'] = round(time.time() - t1, 1)
-        tot = {'cases': 0, 'databases': 0, 'distinct_nontrivial': 0, 'answers_equal_definition': 0, 'requests_on_both_routes': 0}
+        tot = {'cases': 0, 'databases': 0, 'distinct_nontrivial': 0, 'answers_equal_definition': 0, 'requests_on_both_routes': 0,
+               'cases_skipped_after_a_refused_push': 0}
         maps = {k: {} for k in ('pushes', 'requests', 'classes', 'fired_cases', 'fired_observed', 'fired_silent', 'mismatch_counts')}
-        mismatches, infra, sample = [], [], None
+        mismatches, infra, sample, aux = [], [], None, {}
         for r in results:
+            for k, v in (r.get('aux') or {}).items():
+                aux.setdefault(k, v)
             for k in tot:
                 tot[k] += r.get(k) or 0
             for k in maps:
@@ -218,10 +221,13 @@ def run(tier):
         if tot['cases'] != ncases:
             raise vlib.Infra('driver ran %d of %d cases' % (tot['cases'], ncases))
         replayed = sum(maps['requests'].values()) - tot['requests_on_both_routes']
-        if replayed != ncases:
+        skipped = tot['cases_skipped_after_a_refused_push']
+        if replayed + skipped != ncases or (skipped and not mismatches):
             raise vlib.Infra('driver answered %d of %d cases' % (replayed, ncases))
         missing = [c for c in CLASSES_REQUIRED if not maps['classes'].get(c)]
         routes = {k.split('/')[1] for k in maps['requests']}
+        if skipped:
+            missing = []    # /ingest refuses well-formed profiles: reported below, the coverage of the read side is what it is
         if missing or tot['distinct_nontrivial'] < ncases // 2 or routes != {'json', 'proto'} or \
                 not all(maps['pushes'].get(k) for k in ('multipart', 'binary_raw', 'binary_gzip')):
             raise vlib.Infra('vacuous coverage: classes never exercised %s (non-trivial %d of %d, routes %s, pushes %s)' % (
@@ -240,12 +246,12 @@ def run(tier):
                                      'seed': vlib.seed(), 'tier': tier, 'mismatch': m, 'occurrences_in_this_run': maps['mismatch_counts'].get(sig)})
             if nth[sig] > 1:
                 continue
-            req = m.get('request', {})
+            req = m.get('request') or {}
             viols.append({'property': 'X05', 'signature': sig, 'replay': path,
                           'msg': '%s (%d occurrences) request=%s expected=%s observed=%s' % (
                               m['msg'], maps['mismatch_counts'].get(sig, 1), json.dumps(req.get('message'), ensure_ascii=False)[:300],
-                              json.dumps((m.get('expected') or {}).get('Canon'), ensure_ascii=False)[:400],
-                              json.dumps({k: v for k, v in (m.get('observed') or {}).items() if k in ('status', 'error_kind', 'answer', 'units', 'raw')}, ensure_ascii=False)[:500])})
+                              json.dumps((m.get('expected') or {}).get('Canon') if isinstance(m.get('expected'), dict) else m.get('expected'), ensure_ascii=False)[:400],
+                              json.dumps({k: v for k, v in m['observed'].items() if k in ('status', 'error_kind', 'answer', 'units', 'raw')} if isinstance(m.get('observed'), dict) else m.get('observed'), ensure_ascii=False)[:500])})
         repaired = sorted(q for q in ALL_QUIRKS if maps['fired_cases'].get(q) and not maps['fired_observed'].get(q))
         for mc in mcs:
             mc.pop('cases', None)
@@ -261,7 +267,7 @@ def run(tier):
                               'of_those_the_real_code_answers_as_coded': maps['fired_observed'].get(q, 0),
                               'of_those_the_real_code_answers_the_definition': maps['fired_silent'].get(q, 0)} for q in ALL_QUIRKS},
                'quirks_the_code_no_longer_exhibits': repaired,
-               'mismatch_counts': maps['mismatch_counts'],
+               'mismatch_counts': maps['mismatch_counts'], 'aux_not_part_of_X05': aux,
                'checker_cmd': 'tlc MC_ProfSeries (x%d configs) -> x05 run (x%d processes)' % (len(mcs), len(shards))}
         return {'level': 'model_checking', 'coverage': cov, 'violations': viols,
                 'assumptions': [
